@@ -40,7 +40,9 @@ fn main() {
                 // intrinsics and indirect branches are the observation points of the property: make them frequent
                 cfg.allow_intrinsic = rng.chance(2, 3);
                 cfg.intrinsic_pct = 15;
-                cfg.allow_branch = rng.chance(1, 3);
+                cfg.allow_branch = rng.chance(1, 2);
+                cfg.branch_pct = 10;
+                cfg.terminal_pct = 35;
                 let function = fv::gen::function(&mut rng, &cfg, 0x1000);
                 let x = XProg {
                     function, scalars: scalars.clone(), big: rng.bool(), mem_base: 0x2000,
